@@ -395,6 +395,7 @@ private:
   }
 
   inline void compute_post(basic_block_label_t node, AbstractValue inv) {
+    CRAB_VERIF_TICK();
     crab::CrabStats::resume("Fixpo.analyze_block");
     CRAB_VERBOSE_IF(
         2, crab::get_msg_stream()
